@@ -28,6 +28,8 @@ pub fn entries() -> Vec<(&'static str, crate::EntryFn)> {
         ("battalion", entry_battalion),
         ("battalion_dp", entry_battalion_dp),
         ("eco", entry_eco),
+        ("eco_http", entry_eco_http),
+        ("eco_http6", entry_eco_http6),
     ]
 }
 
@@ -348,6 +350,7 @@ fn entry_eco(args: &[&str]) -> String {
         }
         _ => None,
     };
+    let doc_len = doc.as_ref().map(Vec::len);
     let res: gamedig::GDResult<eco::Response> = match doc {
         None => Err(gamedig::GDErrorKind::PacketSend.into()),
         Some(d) => {
@@ -361,5 +364,139 @@ fn entry_eco(args: &[&str]) -> String {
         .ok()
         .and_then(crate::views::ViewDump::view_dump)
         .map_or(String::new(), |v| format!(" ;; V{}", hex(v.as_bytes())));
-    format!("{} ;;  ;; A0/0{}", show_res(&res, show_eco), view)
+    // the document handed over is logged like a received delivery
+    let trace = doc_len.map_or(String::new(), |n| format!("R0:-:{n}"));
+    format!("{} ;; {} ;; A0/0{}", show_res(&res, show_eco), trace, view)
 }
+
+// ---------------------------------------------------------------- Eco over a real loopback HTTP server
+
+/// What the first connection of the script stands for.
+enum EcoPeer {
+    /// no listener: the connection is refused
+    Closed,
+    /// accepts, reads the request, never answers
+    Mute,
+    /// accepts, reads the request, answers `200 OK` with this body
+    Body(Vec<u8>),
+}
+
+/// `eco_http <port (unused)> <retries (unused)> <script>` / `eco_http6 …`: the real `eco::query_with_timeout` against
+/// a one-shot HTTP server on 127.0.0.1 / [::1] (ephemeral port).  Prints `<result> ;; H:<request line>|<Host header>`
+/// with the port replaced by `P` (`H:-` when no request arrived).
+fn eco_http_with(args: &[&str], v6: bool) -> String {
+    use gamedig::verif_hook::{ConnScript, Delivery};
+    use std::io::{Read, Write};
+    use std::sync::atomic::{AtomicBool, Ordering};
+    use std::sync::Arc;
+    if args.len() < 3 {
+        return "bad-case".into();
+    }
+    let (Some(_port), Some(_r), Some(script)) =
+        (args[0].parse::<u16>().ok(), args[1].parse::<usize>().ok(), parse_net_args(&args[2 ..]))
+    else {
+        return "bad-case".into();
+    };
+    let peer = match script.conns.first() {
+        Some(ConnScript::Open(ds)) => {
+            match ds.first() {
+                Some(Delivery::Data(d)) => EcoPeer::Body(d.clone()),
+                _ => EcoPeer::Mute,
+            }
+        }
+        _ => EcoPeer::Closed,
+    };
+    let ip: std::net::IpAddr = if v6 {
+        std::net::Ipv6Addr::LOCALHOST.into()
+    } else {
+        std::net::Ipv4Addr::LOCALHOST.into()
+    };
+    let listener = std::net::TcpListener::bind(std::net::SocketAddr::new(ip, 0)).expect("loopback listener");
+    let port = listener.local_addr().expect("addr").port();
+    let stop = Arc::new(AtomicBool::new(false));
+    let body_len = match &peer {
+        EcoPeer::Body(b) => Some(b.len()),
+        _ => None,
+    };
+    let server = match peer {
+        EcoPeer::Closed => {
+            drop(listener);
+            None
+        }
+        peer => {
+            let stop = stop.clone();
+            Some(std::thread::spawn(move || -> Option<String> {
+                listener.set_nonblocking(true).ok()?;
+                let mut stream = loop {
+                    match listener.accept() {
+                        Ok((s, _)) => break s,
+                        Err(_) => {
+                            if stop.load(Ordering::SeqCst) {
+                                return None;
+                            }
+                            std::thread::sleep(std::time::Duration::from_millis(2));
+                        }
+                    }
+                };
+                stream.set_nonblocking(false).ok()?;
+                stream.set_read_timeout(Some(std::time::Duration::from_secs(2))).ok()?;
+                let mut req = Vec::new();
+                let mut b = [0u8; 1];
+                while !req.ends_with(b"\r\n\r\n") {
+                    match stream.read(&mut b) {
+                        Ok(1) => req.push(b[0]),
+                        _ => break,
+                    }
+                }
+                match peer {
+                    EcoPeer::Body(body) => {
+                        let head = format!(
+                            "HTTP/1.1 200 OK\r\nContent-Type: application/json\r\nContent-Length: {}\r\nConnection: close\r\n\r\n",
+                            body.len()
+                        );
+                        let _ = stream.write_all(head.as_bytes());
+                        let _ = stream.write_all(&body);
+                        let _ = stream.flush();
+                    }
+                    _ => {
+                        while !stop.load(Ordering::SeqCst) {
+                            std::thread::sleep(std::time::Duration::from_millis(2));
+                        }
+                    }
+                }
+                Some(String::from_utf8_lossy(&req).into_owned())
+            }))
+        }
+    };
+    let t = std::time::Duration::from_millis(300);
+    let settings = Some(gamedig::protocols::types::TimeoutSettings::new(Some(t), Some(t), Some(t), 0).unwrap());
+    let res = eco::query_with_timeout(&ip, Some(port), &settings);
+    stop.store(true, Ordering::SeqCst);
+    let request = server.and_then(|h| h.join().ok().flatten());
+    let trace = match request {
+        None => "H:-".to_string(),
+        Some(req) => {
+            let mut lines = req.split("\r\n");
+            let first = lines.next().unwrap_or("").to_string();
+            let host = lines
+                .find(|l| l.to_ascii_lowercase().starts_with("host:"))
+                .unwrap_or("")
+                .replace(&format!(":{port}"), ":P");
+            format!(
+                "H:{}|{}{}",
+                first.replace(' ', "_"),
+                host.replace(' ', "_"),
+                body_len.map_or(String::new(), |n| format!(" R0:-:{n}"))
+            )
+        }
+    };
+    let view = res
+        .as_ref()
+        .ok()
+        .and_then(crate::views::ViewDump::view_dump)
+        .map_or(String::new(), |v| format!(" ;; V{}", hex(v.as_bytes())));
+    format!("{} ;; {} ;; A0/0{}", show_res(&res, show_eco), trace, view)
+}
+
+fn entry_eco_http(args: &[&str]) -> String { eco_http_with(args, false) }
+fn entry_eco_http6(args: &[&str]) -> String { eco_http_with(args, true) }
